@@ -16,7 +16,7 @@ PY = os.path.join(VERIF, ".venv", "bin", "python")
 
 
 class Case:
-    def __init__(self, cid, family, fn, params=None, budget=600, bounds=None, expect_violation=False):
+    def __init__(self, cid, family, fn, params=None, budget=600, bounds=None, expect_violation=False, must_reach=None):
         self.id = cid
         self.family = family
         self.fn = fn
@@ -24,6 +24,7 @@ class Case:
         self.budget = budget
         self.bounds = bounds or ""
         self.expect_violation = expect_violation   # reachability twin: must come back violated
+        self.must_reach = must_reach or []
 
 
 def load_cases(modname, tier):
@@ -174,7 +175,7 @@ def run_property(modname, tier, seed, jobs=None, only=None, verbose=False):
             continue
         if r["paths"] == 0 or not r["labels"]:
             harness_errors.append("%s: vacuous (no path / no assertion reached)" % r["case"])
-        need = getattr(by_id[r["case"]].fn, "must_reach", None) or []
+        need = list(getattr(by_id[r["case"]].fn, "must_reach", None) or []) + list(by_id[r["case"]].must_reach)
         for lab in need:
             if r["labels"].get(lab, {}).get("reached", 0) == 0:
                 harness_errors.append("%s: label %s never reached (vacuity)" % (r["case"], lab))
@@ -212,6 +213,8 @@ def run_property(modname, tier, seed, jobs=None, only=None, verbose=False):
                 validated += 1
                 if twin:
                     r["twin_ok"] = True
+                    continue
+                if any(c == r["case"] and l == v["label"] for c, l, _p, _v in confirmed):
                     continue
                 path = os.path.join(VERIF, "replays", "%s_%s_%s.json" % (
                     prop, _safe(r["case"]), _safe(v["label"])))
